@@ -30,6 +30,7 @@ deriving DecidableEq
 /-- a block as the node holds it. -/
 structure Blk (F : Type) where
   id : Nat
+  gen : Nat                   -- the generator (its rank in the round decides `RoundRank`)
   h : F                       -- message point of the block hash
   tickets : List (Ticket F)   -- `b.VerificationTickets`
   notarized : Bool            -- `b.isNotarized`
@@ -98,25 +99,43 @@ def Node.storeFor (nd : Node F) (id : Nat) : List (Ticket F) := (nd.store.filter
 def Node.storeAdd (nd : Node F) (id : Nat) (t : Ticket F) : Node F :=
   { nd with store := (nd.store.filter (fun e => e.2.sig ≠ t.sig)) ++ [(id, t)] }
 
-/-- `checkBlockNotarization` → `AddNotarizedBlock` → `AddNotarizedBlockToRound`. -/
+/-- `Chain.addBlock` (under `AddBlock` / `AddRoundBlock`): a second object of a known block has its tickets merged into
+the chain's copy **without verification** (`c.MergeVerificationTickets(eb, b.GetVerificationTickets())`, which also
+updates the notarized flag); returns the chain's copy. -/
+def Node.addBlock (nd : Node F) (b : Blk F) : Node F × Blk F :=
+  match nd.block? b.id with
+  | some eb =>
+    let eb' := updateNotarization nd { eb with tickets := mergeTickets eb.tickets b.tickets }
+    (nd.setBlock eb', eb')
+  | none => (nd.setBlock b, b)
+
+/-- `AddNotarizedBlockToRound` → `round.AddNotarizedBlock`: the block enters the round's notarized list (replacing a
+notarized block of the same rank, i.e. of the same generator) and its notarized flag is set. -/
+def Node.addNotarizedToRound (nd : Node F) (id : Nat) : Node F :=
+  match nd.block? id with
+  | none => nd
+  | some b =>
+    if nd.roundNotarized.contains id then nd
+    else
+      let others := nd.roundNotarized.filter (fun j => ((nd.block? j).map (·.gen)) != some b.gen)
+      let nd1 := nd.setBlock { b with notarized := true }
+      { nd1 with roundNotarized := others ++ [id] }
+
+/-- `checkBlockNotarization`: only a block whose flag is set is added to the round. -/
 def Node.noteNotarized (nd : Node F) (b : Blk F) : Node F :=
-  if b.notarized ∧ !nd.roundNotarized.contains b.id then { nd with roundNotarized := nd.roundNotarized ++ [b.id] } else nd
+  if b.notarized then nd.addNotarizedToRound b.id else nd
 
 /-- `processVerifyBlock` for a received proposal `b` (carrying whatever tickets the sender attached): the round's
-collected tickets are merged into it, **its own tickets are not verified**, and the count decides. A block that is not
-notarized yet goes to the verification queue (it is not a chain block until verified). -/
+collected tickets are merged into it, **its own tickets are not verified**, and the count decides. Either way the object
+reaches `Chain.addBlock` (directly when it counts as notarized, through `AddToRoundVerification` otherwise). -/
 def processVerifyBlock (nd : Node F) (b : Blk F) : Node F :=
   let b1 := { b with tickets := mergeTickets b.tickets (nd.storeFor b.id) }
   let b2 := updateNotarization nd b1
-  if !b2.notarized then nd
-  else
-    -- AddRoundBlock: an already known block with this hash wins
-    let b3 := (nd.block? b.id).getD b2
-    let nd1 := if (nd.block? b.id).isSome then nd else nd.setBlock b2
-    nd1.noteNotarized b3
+  let (nd1, cb) := nd.addBlock b2
+  if b2.notarized then nd1.noteNotarized cb else nd1
 
-/-- the block becomes a chain block (what `VerifyRoundBlock` → `AddRoundBlock` does after the node verified it). -/
-def know (nd : Node F) (b : Blk F) : Node F := if (nd.block? b.id).isSome then nd else nd.setBlock b
+/-- the block object reaches the chain through `AddRoundBlock` (e.g. after the node's own verification). -/
+def know (nd : Node F) (b : Blk F) : Node F := (nd.addBlock b).1
 
 /-- `handleVerificationTicketMessage`: the single ticket is verified; for a chain block `ProcessVerifiedTicket`, otherwise
 it is kept in the round. -/
@@ -139,27 +158,23 @@ def handleNotarization (nd : Node F) (id : Nat) (ts : List (Ticket F)) : Node F 
   match nd.block? id with
   | none => nd
   | some b =>
-    if b.notarized then
-      { nd with roundNotarized := if nd.roundNotarized.contains id then nd.roundNotarized else nd.roundNotarized ++ [id] }
+    if b.notarized then nd.addNotarizedToRound id
     else
       let vts := unknownTickets b ts
       if vts.isEmpty then
-        if verifyNotarization nd b.h b.tickets then
-          { nd with roundNotarized := if nd.roundNotarized.contains id then nd.roundNotarized else nd.roundNotarized ++ [id] }
-        else nd
+        if verifyNotarization nd b.h b.tickets then nd.addNotarizedToRound id else nd
       else if (verifyTickets nd b.h vts).getD false then
         let b2 := updateNotarization nd { b with tickets := mergeTickets b.tickets vts }
         let nd1 := nd.setBlock b2
-        if b2.notarized then
-          { nd1 with roundNotarized := if nd1.roundNotarized.contains id then nd1.roundNotarized else nd1.roundNotarized ++ [id] }
-        else nd1
+        if b2.notarized then nd1.addNotarizedToRound id else nd1
       else nd
 
-/-- `handleNotarizedBlockMessage`: the block's own tickets go through `VerifyNotarization`. -/
+/-- `handleNotarizedBlockMessage`: the block's own tickets go through `VerifyNotarization`; then `AddRoundBlock` and
+`AddNotarizedBlock`. -/
 def handleNotarizedBlock (nd : Node F) (nb : Blk F) : Node F :=
   if verifyNotarization nd nb.h nb.tickets then
-    let nd1 := if (nd.block? nb.id).isSome then nd else nd.setBlock nb
-    { nd1 with roundNotarized := if nd1.roundNotarized.contains nb.id then nd1.roundNotarized else nd1.roundNotarized ++ [nb.id] }
+    let (nd1, _) := nd.addBlock nb
+    nd1.addNotarizedToRound nb.id
   else nd
 
 end Generic
